@@ -4,8 +4,8 @@
    does; their agreement after every call is therefore a theorem.  The model has no write buffer:
    what [tab]/[data] denote is what an independent reader sees the moment the call returns — the
    correspondence check observes exactly that through a fresh OS handle. *)
-From Model Require Import Base Str Fmt Blocks Container AFile GFile.
-From Proofs Require Import BaseFacts FmtFacts ContainerFacts ContainerProps GapFacts.
+From Model Require Import Base Str Fmt Blocks Container AFile GFile TwoObjects.
+From Proofs Require Import BaseFacts FmtFacts ContainerFacts ContainerProps GapFacts TwoFacts.
 Open Scope Z_scope.
 
 (* after every call — successful or refused — the open object's table is the table on disk *)
@@ -81,3 +81,14 @@ Proof.
   split; [split; [repeat constructor; discriminate|reflexivity]|].
   repeat constructor; cbn; intuition discriminate.
 Qed.
+
+(* two objects on one file, their sessions OVERLAPPING (TwoObjects.v: each object has its own copy of the table; entering a
+   context re-reads it, leaving writes nothing).  A enters and mutates (or does not: opsA = []); while A is still inside its
+   context a helper object B enters, runs a whole session and leaves; A leaves without touching the file again.  The file —
+   and the table any object reads from it afterwards — is what A's calls followed by B's calls make of it, and it is compact. *)
+Theorem C10_two_objects_overlapping_sessions : forall s opsA opsB,
+  compact s -> Forall op_ok opsA -> Forall op_ok opsB ->
+  let calls := TEnter ObjA :: map (TOp ObjA) opsA ++ TEnter ObjB :: map (TOp ObjB) opsB ++ [TExit ObjB; TExit ObjA] in
+  file_of (t_run (start s) calls) = run_ops s (opsA ++ opsB) /\ compact (file_of (t_run (start s) calls)).
+Proof. exact overlapping_sessions. Qed.
+Print Assumptions C10_two_objects_overlapping_sessions.
